@@ -983,3 +983,326 @@ Example m09d_hypothesis_satisfiable :
   existsb (fun e => match e with SPhase (PPause 10001 true _) => true | _ => false end)
           (sc_events (set_obs_s x_pause_case (SetCorr.model_run x_pause_case))) = true.
 Proof. vm_compute. split; reflexivity. Qed.
+
+(** ** Prefix-indexed monitors (C15Corr): helper lemmas *)
+Lemma with_prefix_app {A} (a : list A) : forall p b,
+  C15Corr.with_prefix p (a ++ b) = C15Corr.with_prefix p a ++ C15Corr.with_prefix (p ++ a) b.
+Proof.
+  induction a as [|x a IH]; intros p b; cbn [app C15Corr.with_prefix]; [now rewrite app_nil_r|].
+  rewrite IH. now rewrite <- app_assoc.
+Qed.
+
+Lemma forallb_with_prefix {A} (F : list A * A -> bool) (l : list A) : forall p,
+  (forall l1 x l2, l = l1 ++ x :: l2 -> F (p ++ l1, x) = true) -> forallb F (C15Corr.with_prefix p l) = true.
+Proof.
+  induction l as [|a l IH]; intros p H; [reflexivity|]. cbn [C15Corr.with_prefix forallb].
+  apply andb_true_iff. split.
+  - specialize (H [] a l eq_refl). now rewrite app_nil_r in H.
+  - apply IH. intros l1 x l2 ->. specialize (H (a :: l1) x l2 eq_refl). now rewrite <- app_assoc.
+Qed.
+
+(** which phase an event writes to, as [C15Corr.phase_idx] decides it *)
+Definition hitb (s : oset) (ph : phase) (e : sev) : bool :=
+  match e with
+  | SMember x => negb (ph_class ph) && existsb (okey_eqb (ev_key x)) (map (spec_key s) (ph_objects ph))
+  | SPhase (PCreate m _) | SPhase (PPause m _ _) | SPhase (PDelete m _) | SPhase (PStrip m _) => ph_class ph && (m =? C15Corr.join s ph)
+  | _ => false
+  end.
+
+Lemma phase_idx_cons s ph r e i :
+  C15Corr.phase_idx s (ph :: r) e i = if hitb s ph e then Some i else C15Corr.phase_idx s r e (S i).
+Proof. destruct e as [x|ms|p]; [reflexivity|reflexivity|destruct p; reflexivity]. Qed.
+
+Lemma phase_idx_exact' s ph back e : forall front i,
+  (forall q, In q front -> hitb s q e = false) -> hitb s ph e = true ->
+  C15Corr.phase_idx s (front ++ ph :: back) e i = Some (i + length front)%nat.
+Proof.
+  induction front as [|q front IH]; intros i Hno Hhit; cbn [app].
+  - rewrite phase_idx_cons, Hhit. cbn. f_equal. lia.
+  - rewrite phase_idx_cons, (Hno q (or_introl eq_refl)), IH; [cbn; f_equal; lia| |exact Hhit].
+    intros q' Hq'. apply Hno. now right.
+Qed.
+
+Lemma phase_idx_le s ph back e : forall front i,
+  hitb s ph e = true ->
+  exists j, C15Corr.phase_idx s (front ++ ph :: back) e i = Some (i + j)%nat /\ (j <= length front)%nat.
+Proof.
+  induction front as [|q front IH]; intros i Hhit; cbn [app].
+  - exists O. rewrite phase_idx_cons, Hhit. split; [f_equal; lia|cbn; lia].
+  - rewrite phase_idx_cons. destruct (hitb s q e).
+    + exists O. split; [f_equal; lia|cbn; lia].
+    + destruct (IH (S i) Hhit) as (j & Hj & Hle). exists (S j). split; [rewrite Hj; f_equal; lia|cbn; lia].
+Qed.
+
+Lemma phase_idx_none s e : forall phs i, (forall q, In q phs -> hitb s q e = false) -> C15Corr.phase_idx s phs e i = None.
+Proof.
+  induction phs as [|q phs IH]; intros i H; [reflexivity|]. rewrite phase_idx_cons, (H q (or_introl eq_refl)).
+  apply IH. intros q' Hq'. apply H. now right.
+Qed.
+
+Lemma skipn_app_exact {A} (l1 : list A) x l2 : skipn (S (length l1)) (l1 ++ x :: l2) = l2.
+Proof. induction l1 as [|a l1 IH]; [reflexivity|exact IH]. Qed.
+
+Lemma seen_gone_untouched uid nm b l : untouched l nm -> C15Corr.seen_gone uid nm (b ++ l) = C15Corr.seen_gone uid nm b.
+Proof. intros H. unfold C15Corr.seen_gone. now rewrite last_seen_app, (last_seen_untouched _ _ H). Qed.
+
+Lemma seen_available_untouched nm b l : untouched l nm -> C15Corr.seen_available nm (b ++ l) = C15Corr.seen_available nm b.
+Proof. intros H. unfold C15Corr.seen_available. now rewrite last_seen_app, (last_seen_untouched _ _ H). Qed.
+
+Lemma meta_untouched ms nm : untouched [SMeta ms] nm.
+Proof. constructor; [exact I|constructor]. Qed.
+
+Lemma keeps2_untouched mem0 l nm : Forall (keeps2 mem0) l -> untouched l nm.
+Proof. intros H. eapply Forall_impl; [|exact H]. intros e He. destruct e as [x|ms|p]; try contradiction. exact I. Qed.
+
+(** ** m04d: teardown order over delegated phases *)
+Definition td_check (s : oset) (pe : list sev * sev) : bool :=
+  let '(before, e) := pe in
+  (negb (os_orphan s) || match e with SMember _ | SPhase (PDelete _ _) | SPhase (PStrip _ _) => false | _ => true end) &&
+  match e with
+  | SPhase (PDelete nm _) | SPhase (PStrip nm _) =>
+      match C15Corr.last_seen nm before None with Some (Some cur) => controlled_by_uid (op_owners cur) (oi_uid (os_id s)) | _ => false end
+  | _ => true end &&
+  match C15Corr.phase_idx s (os_phases s) e O with
+  | Some j => forallb (fun ph => negb (ph_class ph) || C15Corr.seen_gone (oi_uid (os_id s)) (C15Corr.join s ph) before) (skipn (S j) (os_phases s))
+  | None => match e with SMember _ => false | SPhase (PCreate _ _) | SPhase (PPause _ _ _) | SPhase (PDelete _ _) | SPhase (PStrip _ _) => false | _ => true end
+  end &&
+  match e with
+  | SMeta (MFinalizer false _) => negb (os_fin s) || os_orphan s || forallb (fun ph => C15Corr.seen_gone (oi_uid (os_id s)) (C15Corr.join s ph) before) (C15Corr.delegated s)
+  | SMeta (MStatus _ cs _ _ _ _) => negb (cond_true cs CArchived) || negb (os_fin s) || os_orphan s ||
+                                     forallb (fun ph => C15Corr.seen_gone (oi_uid (os_id s)) (C15Corr.join s ph) before) (C15Corr.delegated s)
+  | _ => true end.
+
+Lemma td_check_get s b n r : td_check s (b, SPhase (PGet n r)) = true.
+Proof. unfold td_check. rewrite phase_idx_none by (intros; reflexivity). now rewrite orb_true_r. Qed.
+
+Definition later_gone (s : oset) (b : list sev) (back : list phase) : Prop :=
+  forall q, In q back -> ph_class q = true -> C15Corr.seen_gone (oi_uid (os_id s)) (C15Corr.join s q) b = true.
+
+Lemma later_gone_forallb s b back : later_gone s b back ->
+  forallb (fun ph => negb (ph_class ph) || C15Corr.seen_gone (oi_uid (os_id s)) (C15Corr.join s ph) b) back = true.
+Proof. intros H. apply forallb_forall. intros q Hq. destruct (ph_class q) eqn:E; [|reflexivity]. cbn. now apply H. Qed.
+
+Lemma td_check_write s b e front ph back :
+  os_orphan s = false -> os_phases s = front ++ ph :: back ->
+  (forall q, In q front -> hitb s q e = false) -> hitb s ph e = true -> later_gone s b back ->
+  match e with
+  | SPhase (PDelete nm _) | SPhase (PStrip nm _) =>
+      match C15Corr.last_seen nm b None with Some (Some cur) => controlled_by_uid (op_owners cur) (oi_uid (os_id s)) | _ => false end
+  | _ => true end = true ->
+  match e with SMeta _ => False | _ => True end ->
+  td_check s (b, e) = true.
+Proof.
+  intros Ho Hsplit Hno Hhit Hlg Hrd Hnm. unfold td_check. rewrite Ho, Hrd, Hsplit, (phase_idx_exact' s ph back e front O Hno Hhit).
+  cbn [negb orb plus andb]. rewrite skipn_app_exact, (later_gone_forallb _ _ _ Hlg). cbn [andb].
+  destruct e as [x|ms|p]; [reflexivity|contradiction|destruct p; reflexivity].
+Qed.
+
+Lemma remote_teardown_trace sw s ph sw1 e1 r :
+  remote_teardown sw s ph = (sw1, e1, r) ->
+  (e1 = [SPhase (PGet (pobj_name s ph) None)] /\ r = TdOk true) \/
+  (exists cur, controlled_by_uid (op_owners cur) (oi_uid (os_id s)) = false /\ e1 = [SPhase (PGet (pobj_name s ph) (Some cur))] /\ r = TdOk true) \/
+  (exists cur, controlled_by_uid (op_owners cur) (oi_uid (os_id s)) = true /\ r <> TdOk true /\
+     (e1 = [SPhase (PGet (pobj_name s ph) (Some cur))] \/
+      (exists w, e1 = [SPhase (PGet (pobj_name s ph) (Some cur)); w] /\
+                 (w = SPhase (PDelete (pobj_name s ph) DOk) \/ w = SPhase (PStrip (pobj_name s ph) true))))).
+Proof.
+  unfold remote_teardown, pobj_name. cbn [desired_phase op_id oi_kind oi_ns oi_name].
+  set (name := join_name (oi_name (os_id s)) (ph_name ph)).
+  destruct (find_phase (sw_phases sw) (phase_kind s) (oi_ns (os_id s)) name) as [cur|]; [|intros H; injection H as _ <- <-; now left].
+  destruct (controlled_by_uid (op_owners cur) (oi_uid (os_id s))) eqn:Ec; cbn [negb];
+    [|intros H; injection H as _ <- <-; right; left; eauto].
+  intros H. right. right. exists cur. split; [exact Ec|].
+  destruct (oi_ns (os_id s) =? 0).
+  { injection H as _ <- <-. split; [discriminate|right; eexists; split; [reflexivity|now left]]. }
+  destruct (ns_state (sw_nss sw) (oi_ns (os_id s))) as [[|]|].
+  - destruct (negb (op_fin cur || op_orphan cur)); injection H as _ <- <-; (split; [discriminate|right; eexists; split; [reflexivity|now right]]).
+  - injection H as _ <- <-. split; [discriminate|right; eexists; split; [reflexivity|now left]].
+  - injection H as _ <- <-. split; [discriminate|now left].
+Qed.
+
+Lemma local_keys_app ow l1 l2 : local_keys ow (l1 ++ l2) = local_keys ow l1 ++ local_keys ow l2.
+Proof. unfold local_keys. now rewrite filter_app, flat_map_app. Qed.
+
+Lemma delegated_names_app s l1 l2 : delegated_names s (l1 ++ l2) = delegated_names s l1 ++ delegated_names s l2.
+Proof. unfold delegated_names. now rewrite filter_app, map_app. Qed.
+
+Lemma nodup_keys_front ow front ph back k q :
+  NoDup (local_keys ow (front ++ ph :: back)) -> ph_class ph = false -> In k (phase_keys ow ph) ->
+  In q front -> ph_class q = false -> ~ In k (phase_keys ow q).
+Proof.
+  intros Hnd Hc Hk Hq Hcq Hkq. rewrite local_keys_app in Hnd.
+  eapply NoDup_app_disj; [exact Hnd|eapply in_local_keys; eauto|].
+  rewrite (local_keys_cons_local _ _ _ Hc). apply in_or_app. now left.
+Qed.
+
+Lemma nodup_names_front s front ph back q :
+  NoDup (delegated_names s (front ++ ph :: back)) -> ph_class ph = true ->
+  In q front -> ph_class q = true -> pobj_name s q <> pobj_name s ph.
+Proof.
+  intros Hnd Hc Hq Hcq Heq. rewrite delegated_names_app in Hnd.
+  eapply NoDup_app_disj; [exact Hnd|eapply in_delegated_names; eauto|].
+  rewrite (delegated_names_cons_remote _ _ _ Hc), Heq. now left.
+Qed.
+
+Lemma nodup_names_back s front ph back q :
+  NoDup (delegated_names s (front ++ ph :: back)) -> ph_class ph = true ->
+  In q back -> ph_class q = true -> pobj_name s ph <> pobj_name s q.
+Proof.
+  intros Hnd Hc Hq Hcq Heq. rewrite delegated_names_app in Hnd. apply NoDup_app_r in Hnd.
+  rewrite (delegated_names_cons_remote _ _ _ Hc) in Hnd. inversion Hnd as [|? ? Hnotin _]; subst.
+  apply Hnotin. rewrite Heq. now apply in_delegated_names.
+Qed.
+
+Lemma tpm_trace force s : forall rphs sw sw' evs r back before,
+  teardown_phases_m force sw s (as_owner s) rphs = (sw', evs, r) ->
+  os_phases s = rev rphs ++ back ->
+  NoDup (delegated_names s (os_phases s)) -> NoDup (local_keys (as_owner s) (os_phases s)) ->
+  os_orphan s = false -> later_gone s before back ->
+  forallb (td_check s) (C15Corr.with_prefix before evs) = true /\
+  (r = TdOk true -> later_gone s (before ++ evs) (os_phases s)).
+Proof.
+  induction rphs as [|ph rest IH]; intros sw sw' evs r back before H Hsplit Hndn Hndk Horph Hlg.
+  - cbn in H. injection H as _ <- _. cbn in Hsplit. rewrite Hsplit, app_nil_r. auto.
+  - cbn [rev] in Hsplit. rewrite <- app_assoc in Hsplit. cbn [app] in Hsplit.
+    rewrite tpm_cons in H. destruct (td_step force sw s (as_owner s) ph) as [[sw1 e1] r1] eqn:E1.
+    assert (Hstep : forallb (td_check s) (C15Corr.with_prefix before e1) = true /\
+                    (r1 = TdOk true -> later_gone s (before ++ e1) (ph :: back))).
+    { unfold td_step in E1. destruct (ph_class ph) eqn:Ecl.
+      - (* delegated *)
+        assert (Hback : forall l, only_phase_evs (pobj_name s ph) l -> later_gone s (before ++ l) back).
+        { intros l Hl q Hq Hcq. rewrite seen_gone_untouched; [now apply Hlg|].
+          apply (only_phase_untouched _ _ _ Hl). rewrite Hsplit in Hndn. exact (nodup_names_back _ _ _ _ _ Hndn Ecl Hq Hcq). }
+        assert (Hget : forall rr, only_phase_evs (pobj_name s ph) [SPhase (PGet (pobj_name s ph) rr)]) by (intros; constructor; [reflexivity|constructor]).
+        assert (Hhit_no : forall e0, (exists d, e0 = SPhase (PDelete (pobj_name s ph) d)) \/ (exists o, e0 = SPhase (PStrip (pobj_name s ph) o)) ->
+                   (forall q, In q (rev rest) -> hitb s q e0 = false) /\ hitb s ph e0 = true).
+        { intros e0 He0. split.
+          - intros q Hq. destruct (ph_class q) eqn:Ecq; [|destruct He0 as [(d & ->)|(o & ->)]; cbn; now rewrite Ecq].
+            rewrite Hsplit in Hndn. pose proof (nodup_names_front _ _ _ _ _ Hndn Ecl Hq Ecq) as Hne.
+            assert ((pobj_name s ph =? C15Corr.join s q) = false) by (apply N.eqb_neq; intros Hx; apply Hne; now rewrite Hx).
+            destruct He0 as [(d & ->)|(o & ->)]; cbn; now rewrite Ecq, H0.
+          - destruct He0 as [(d & ->)|(o & ->)]; cbn; rewrite Ecl; cbn; apply N.eqb_refl. }
+        destruct (remote_teardown_trace _ _ _ _ _ _ E1) as [[-> ->]|[(cur & Hc & -> & ->)|(cur & Hc & Hr & He1)]].
+        + cbn [C15Corr.with_prefix forallb]. rewrite td_check_get. split; [reflexivity|]. intros _ q [<-|Hq] Hcq; [|now apply (Hback _ (Hget None))].
+          unfold C15Corr.seen_gone. rewrite last_seen_app. cbn. unfold C15Corr.join, pobj_name. now rewrite N.eqb_refl.
+        + cbn [C15Corr.with_prefix forallb]. rewrite td_check_get. split; [reflexivity|]. intros _ q [<-|Hq] Hcq; [|now apply (Hback _ (Hget (Some cur)))].
+          unfold C15Corr.seen_gone. rewrite last_seen_app. cbn. unfold C15Corr.join, pobj_name. now rewrite N.eqb_refl, Hc.
+        + split; [|intros Hx; contradiction].
+          destruct He1 as [->|(w & -> & Hw)]; cbn [C15Corr.with_prefix forallb app]; rewrite td_check_get; [reflexivity|]. cbn [andb].
+          rewrite andb_true_r.
+          assert (Hw' : (exists d, w = SPhase (PDelete (pobj_name s ph) d)) \/ (exists o, w = SPhase (PStrip (pobj_name s ph) o))) by (destruct Hw as [->| ->]; eauto).
+          destruct (Hhit_no w Hw') as [Hno Hhit].
+          apply (td_check_write s _ w (rev rest) ph back Horph Hsplit Hno Hhit (Hback _ (Hget (Some cur)))).
+          * destruct Hw as [-> | ->]; rewrite last_seen_app; cbn; now rewrite N.eqb_refl, Hc.
+          * destruct Hw as [-> | ->]; exact I.
+      - (* local *)
+        destruct (teardown_phase _ idw (sw_w sw) (as_owner s) (ph_objects ph)) as [[w1 e'] r'] eqn:Et. injection E1 as _ <- <-.
+        pose proof (td_phase_events_in force _ _ _ _ _ _ Et) as Hin.
+        assert (Hback : forall l, later_gone s (before ++ map SMember l) (ph :: back)).
+        { intros l q [<-|Hq] Hcq; [congruence|]. rewrite seen_gone_untouched; [now apply Hlg|apply members_untouched]. }
+        split; [|intros _; apply Hback].
+        apply forallb_with_prefix. intros l1 x l2 Hl.
+        assert (Hx : exists y, x = SMember y /\ In y e' /\ exists l1', l1 = map SMember l1').
+        { clear -Hl. revert l1 Hl. induction e' as [|a e' IH]; intros l1 Hl; [destruct l1; discriminate|].
+          destruct l1 as [|b l1]; cbn in Hl; injection Hl as <- Hl.
+          - exists a. split; [reflexivity|]. split; [now left|exists []; reflexivity].
+          - destruct (IH _ Hl) as (y & -> & Hy & l1' & ->). exists y. split; [reflexivity|]. split; [now right|exists (a :: l1'); reflexivity]. }
+        destruct Hx as (y & -> & Hy & l1' & ->). rewrite Forall_forall in Hin. specialize (Hin y Hy).
+        apply (td_check_write s _ (SMember y) (rev rest) ph back Horph Hsplit); [| |intros q Hq Hcq; apply (Hback l1' q (or_intror Hq) Hcq)|reflexivity|exact I].
+        + intros q Hq. cbn. destruct (ph_class q) eqn:Ecq; [reflexivity|]. cbn. apply Bool.not_true_is_false. intros Hex. apply existsb_okey in Hex.
+          rewrite Hsplit in Hndk. exact (nodup_keys_front _ _ _ _ _ _ Hndk Ecl Hin Hq Ecq Hex).
+        + cbn. rewrite Ecl. cbn. now apply existsb_okey. }
+    destruct Hstep as [Hf1 Hlg1].
+    destruct r1 as [|[|]]; try (injection H as _ <- <-; split; [exact Hf1|discriminate]).
+    destruct (teardown_phases_m force sw1 s (as_owner s) rest) as [[sw2 e2] r2] eqn:E2. injection H as _ <- <-.
+    destruct (IH _ _ _ _ (ph :: back) (before ++ e1) E2 Hsplit Hndn Hndk Horph (Hlg1 eq_refl)) as [Hf2 Hlg2].
+    rewrite with_prefix_app, forallb_app, Hf1, Hf2. split; [reflexivity|]. now rewrite app_assoc.
+Qed.
+
+(** an ObjectSet that is being deleted / archived lists no object identity twice (its local phases) *)
+Definition going_keys_nodup (c : scase) : bool :=
+  match find_set (sc_sets c) (sc_kind c) (sc_ns c) (sc_name c) with
+  | Some m => negb (is_goingb m) || SetMonitors.keys_nodup m
+  | None => true
+  end.
+
+Lemma del_tail_untouched mem td l nm : Forall (del_tail_ok mem td) l -> untouched l nm.
+Proof. intros H. eapply Forall_impl; [|exact H]. intros e He. destruct e as [x|ms|p]; try contradiction. exact I. Qed.
+
+Theorem m04d_sound_partial (c : scase) :
+  going_keys_nodup c = true -> m04d (set_obs_s c (SetCorr.model_run c)) = true.
+Proof.
+  intros Hkn. unfold m04d, C15Corr.m_teardown, going_keys_nodup in *. destruct (SetCorr.model_run c) as [[sw e] r] eqn:E.
+  cbn [as_dobs C15Corr.ds_step C15Corr.ds_pre_set set_obs_s sc_sets sc_kind sc_ns sc_name].
+  destruct (find_set (sc_sets c) (sc_kind c) (sc_ns c) (sc_name c)) as [m|] eqn:Ef; [|reflexivity].
+  change (C15Corr.is_goingb m) with (is_goingb m).
+  destruct (target_kind m) as [(_ & _ & ->)|[(Hgb & _ & Hg)|(_ & -> & _)]]; [reflexivity| |reflexivity].
+  rewrite Hgb in *. cbn [negb orb] in *.
+  destruct (C15Corr.names_nodup m) eqn:Hn; [|reflexivity]. cbn [negb orb].
+  apply names_nodup_spec in Hn. apply keys_nodup_iff in Hkn.
+  assert (Ef' : find_set (sw_sets (sc_world c)) (sc_kind c) (sc_ns c) (sc_name c) = Some m) by exact Ef.
+  unfold SetCorr.model_run in E.
+  pose proof (objectset_pass_going (sc_force c) _ _ _ _ _ _ _ _ Ef' Hg E) as Hd.
+  destruct (deletion_pass_shape (sc_force c) _ _ _ _ _ Hd) as (sw1 & tevs & td & tail & Htd & He & Htail & _ & _).
+  unfold C15Corr.evs. cbn [as_dobs C15Corr.ds_events set_obs_s sc_events].
+  change (forallb (td_check m) (C15Corr.with_prefix [] e) = true).
+  rewrite He, with_prefix_app, forallb_app. cbn [app].
+  (* the teardown requests *)
+  assert (Htev : forallb (td_check m) (C15Corr.with_prefix [] tevs) = true /\
+                 (os_fin m = true -> os_orphan m = false -> td = TdOk true -> later_gone m tevs (os_phases m))).
+  { unfold teardown_of in Htd. destruct (os_fin m); [|injection Htd as _ <- _; split; [reflexivity|discriminate]].
+    destruct (os_orphan m) eqn:Horph; [injection Htd as _ <- _; split; [reflexivity|discriminate]|].
+    assert (Hsplit : os_phases m = rev (rev (os_phases m)) ++ []) by now rewrite rev_involutive, app_nil_r.
+    destruct (tpm_trace (sc_force c) m _ _ _ _ _ [] [] Htd Hsplit Hn Hkn Horph) as [H1 H2]; [intros q []|].
+    split; [exact H1|]. intros _ _ Ht. exact (H2 Ht). }
+  destruct Htev as [-> Hlg]. cbn [andb].
+  apply forallb_with_prefix. intros l1 x l2 Hl.
+  assert (Hl1 : forall nm, untouched l1 nm).
+  { intros nm. apply (del_tail_untouched m td). rewrite Hl in Htail. now apply Forall_app in Htail. }
+  assert (Hx : del_tail_ok m td x).
+  { rewrite Hl in Htail. apply Forall_app in Htail. destruct Htail as [_ Ht]. now inversion Ht. }
+  assert (Hgone : os_fin m = true -> os_orphan m = false -> td = TdOk true ->
+                  forallb (fun ph => C15Corr.seen_gone (oi_uid (os_id m)) (C15Corr.join m ph) (tevs ++ l1)) (C15Corr.delegated m) = true).
+  { intros Hf Ho Ht. apply forallb_forall. intros q Hq. unfold C15Corr.delegated in Hq. apply filter_In in Hq. destruct Hq as [Hq Hcq].
+    rewrite seen_gone_untouched by apply Hl1. exact (Hlg Hf Ho Ht q Hq Hcq). }
+  destruct x as [y|[added ok|rv cs co rm fph ok]|y]; try contradiction.
+  - destruct Hx as (-> & Ht & Hf). unfold td_check. rewrite phase_idx_none by (intros; reflexivity).
+    rewrite orb_true_r. cbn [andb]. rewrite Hf. cbn [negb orb]. destruct (os_orphan m) eqn:Ho; [reflexivity|]. cbn [orb]. now apply Hgone.
+  - destruct Hx as (_ & _ & _ & Harch). unfold td_check. rewrite phase_idx_none by (intros; reflexivity).
+    rewrite orb_true_r. cbn [andb].
+    destruct (cond_true cs CArchived) eqn:Hca; [|reflexivity]. cbn [negb orb].
+    destruct (os_fin m) eqn:Hf; [|reflexivity]. cbn [negb orb]. destruct (os_orphan m) eqn:Ho; [reflexivity|]. cbn [orb].
+    destruct (Harch eq_refl) as [Ht _]. now apply Hgone.
+Qed.
+
+(** *** The refuting case: a deleting ObjectSet that lists the same ConfigMap in its first and in its third phase, with a
+    delegated phase in between. The teardown deletes the ConfigMap as part of the LAST phase; the monitor attributes
+    the request to the FIRST phase naming the key and demands the delegated phase behind it gone. *)
+Definition x_dupkey_del_set : oset :=
+  {| os_id := x_id; os_rv := 5; os_gen := 1; os_deleting := true; os_fin := true; os_orphan := false; os_pkg := 0;
+     os_life := LActive;
+     os_phases := [ {| ph_name := 1; ph_class := false; ph_objects := [x_po 1 1] |};
+                    {| ph_name := 2; ph_class := true; ph_objects := [x_po 1 2] |};
+                    {| ph_name := 3; ph_class := false; ph_objects := [x_po 1 1] |} ];
+     os_prev := []; os_revision := 1; os_conds := []; os_ctrlof := []; os_remotes := [] |}.
+Definition x_dupkey_del_case : scase :=
+  case_of false (x_world [(x_key 1 1, x_obj 21 0)] [x_dupkey_del_set] [x_pobj 10002 false [] []]) KObjectSet 1 10.
+
+Theorem m04d_refuted :
+  exists c, going_keys_nodup c = false /\ m04d (set_obs_s c (SetCorr.model_run c)) = false.
+Proof. exists x_dupkey_del_case. vm_compute. split; reflexivity. Qed.
+
+(** the hypothesis holds on the same world with distinct objects: the pass deletes the object of the last phase *)
+Definition x_del_set : oset :=
+  {| os_id := x_id; os_rv := 5; os_gen := 1; os_deleting := true; os_fin := true; os_orphan := false; os_pkg := 0;
+     os_life := LActive;
+     os_phases := [ {| ph_name := 1; ph_class := false; ph_objects := [x_po 1 3] |};
+                    {| ph_name := 2; ph_class := true; ph_objects := [x_po 1 2] |};
+                    {| ph_name := 3; ph_class := false; ph_objects := [x_po 1 1] |} ];
+     os_prev := []; os_revision := 1; os_conds := []; os_ctrlof := []; os_remotes := [] |}.
+Definition x_del_case : scase :=
+  case_of false (x_world [(x_key 1 1, x_obj 21 0)] [x_del_set] [x_pobj 10002 false [] []]) KObjectSet 1 10.
+Example m04d_hypothesis_satisfiable :
+  going_keys_nodup x_del_case = true /\
+  map ev_key (members (set_obs_s x_del_case (SetCorr.model_run x_del_case))) = [x_key 1 1].
+Proof. vm_compute. split; reflexivity. Qed.
